@@ -86,7 +86,7 @@ func tableCases() []string {
 			for _, script := range []string{"ok", "err", "short"} {
 				out = append(out, fmt.Sprintf("writer mask=%d fmt=%q script=%s", mask, cfgFmt, script))
 			}
-			for _, path := range []string{"file", "/dev/null", "/dev/stdout", "/dev/stderr"} {
+			for _, path := range []string{"file", "/dev/null", "/dev/stdout", "/dev/stderr", "devfull"} {
 				out = append(out, fmt.Sprintf("filesink mask=%d fmt=%q path=%s", mask, cfgFmt, path))
 			}
 		}
@@ -175,6 +175,12 @@ func runTable(name string, scratch string) string {
 	switch path {
 	case "/dev/null":
 		fs.Path = "/dev/null"
+	case "devfull":
+		// the active file is a symbolic link to /dev/full: every write fails with ENOSPC
+		os.MkdirAll(filepath.Join(dir, "d"), 0o755)
+		if err := os.Symlink("/dev/full", filepath.Join(dir, "d", "out.log")); err != nil {
+			return "harness: " + err.Error()
+		}
 	case "/dev/stdout", "/dev/stderr":
 		fs.Path = path
 		capPath = filepath.Join(dir, "captured")
@@ -199,6 +205,12 @@ func runTable(name string, scratch string) string {
 	if path == "/dev/null" {
 		if err != nil {
 			return fmt.Sprintf("FileSink on /dev/null must be a pass-through success, got %v", err)
+		}
+		return ""
+	}
+	if path == "devfull" {
+		if err == nil {
+			return "FileSink reported success although every write to the underlying file fails (ENOSPC on the first attempt and on the retry)"
 		}
 		return ""
 	}
@@ -460,9 +472,9 @@ func main() {
 				return hk.ExploreJob(prop, job, deadline, ex, c.Name)
 			}
 		},
-		Rule: "(a) all format tables over {json, f1, f2} (8) x configured format {unset, json, f1, f2} x harness writer {ok, failing, short write} for writer.Sink, and x {real file, /dev/null, /dev/stdout, /dev/stderr (os.Stdout/Stderr swapped for files)} for FileSink, plus nil writer / nil event / missing table: success iff the configured format's bytes exist and the write succeeds, then exactly one write of exactly those bytes. (b) 2-4 concurrent Process calls on one writer.Sink with a scheduling point inside the underlying Write, all interleavings (unbounded for 2, and 3 in thorough): never two calls inside Write at once, one write per call; the concurrent FileSink scenarios of C08 under the race detector. (c) ChannelSink: all interleavings and select-arm choices of {Process, consumer, cancel thread, timer thread} for unbuffered / buffered (empty, full) channels: success iff the very event reached the channel exactly once, error only once the timeout elapsed or the context was done, and Process never stays blocked (deadlock verdict).",
+		Rule: "(a) all format tables over {json, f1, f2} (8) x configured format {unset, json, f1, f2} x harness writer {ok, failing, short write} for writer.Sink, and x {real file, /dev/null, /dev/stdout, /dev/stderr (os.Stdout/Stderr swapped for files), a file that is a symbolic link to /dev/full so that every write fails} for FileSink, plus nil writer / nil event / missing table: success iff the configured format's bytes exist and the write succeeds, then exactly one write of exactly those bytes. (b) 2-4 concurrent Process calls on one writer.Sink with a scheduling point inside the underlying Write, all interleavings (unbounded for 2, and 3 in thorough): never two calls inside Write at once, one write per call; the concurrent FileSink scenarios of C08 under the race detector. (c) ChannelSink: all interleavings and select-arm choices of {Process, consumer, cancel thread, timer thread} for unbuffered / buffered (empty, full) channels: success iff the very event reached the channel exactly once, error only once the timeout elapsed or the context was done, and Process never stays blocked (deadlock verdict).",
 		Assumptions: []string{
-			"FileSink write errors cannot be injected without replacing *os.File and are not covered",
+			"FileSink write faults are injected through a symbolic link to /dev/full (persistent ENOSPC); a fault on the first write followed by a successful retry is not reachable this way and is not covered",
 			"timeouts are modelled timers fired by a harness thread (virtual clock); 'never blocking longer than the shorter of the two' = once the timer fired or the context is done Process returns without any other thread's help",
 		},
 		QuickBudget:    150 * time.Second,
